@@ -15,13 +15,34 @@ import vlib
 
 PID = "C15"
 
-MC_CFGS_QUICK = [("TransportMC.cfg", "pm"), ("TransportMCraw.cfg", "raw")]
-MC_CFGS_THOROUGH = [("TransportMCbig.cfg", "pm"), ("TransportMCrawbig.cfg", "raw")]
-MC_ACTIONS = {
-    "pm": ["MQueue", "MProcessEvents", "MSocketAccepts", "MReadEvent", "MStep", "MTamper", "MDisconnect",
-           "MQuiesce"],
-    "raw": ["MRawSend", "MProcessEvents", "MReadEvent", "MStep", "MTamper", "MQuiesce"],
-}
+# (cfg, driver operations that must occur as the last operation of some emitted script)
+MC_CFGS_QUICK = [
+    ("TransportMC.cfg", ["queue", "pe", "read"]),
+    ("TransportMCbp.cfg", ["queue", "pe", "read", "budget", "disc"]),
+    ("TransportMCtamper.cfg", ["pe", "read", "tamper"]),
+    ("TransportMCraw.cfg", ["pe", "read", "tamper", "raw_init", "raw_garbage", "queue"]),
+    ("TransportMCrawinit.cfg", ["read", "raw_init", "queue"]),
+    ("TransportMCraw2.cfg", ["read", "tamper", "raw_init", "queue"]),
+]
+MC_CFGS_THOROUGH = [
+    ("TransportMCbig.cfg", ["queue", "pe", "read", "disc"]),
+    ("TransportMCbpbig.cfg", ["queue", "pe", "read", "budget", "disc"]),
+    ("TransportMCtamperbig.cfg", ["pe", "read", "tamper"]),
+    ("TransportMCrawbig.cfg", ["pe", "read", "tamper", "raw_init", "raw_garbage", "queue"]),
+    ("TransportMCrawinit.cfg", ["read", "raw_init", "queue"]),
+    ("TransportMCraw2big.cfg", ["read", "tamper", "raw_init", "queue"]),
+]
+
+
+def last_op_counts(scripts):
+    """Vacuity guard: which driver operation (= model action) produced each emitted state."""
+    c = {}
+    for s in scripts:
+        ops = s["ops"]
+        last = ops[-2] if len(ops) > 1 and ops[-1]["op"] == "drain" else ops[-1]
+        c[last["op"]] = c.get(last["op"], 0) + 1
+    return c
+
 
 SIZE_CLASSES = [2, 3, 4, 17, 18, 19, 34, 60, 255, 256, 1000, 2047, 2048, 4096, 8192, 8193, 20000, 65533, 65534, 65535]
 
@@ -33,10 +54,12 @@ def convert(script, rng, variant):
     for o in script["ops"]:
         o = dict(o)
         if o["op"] == "queue":
-            if o.get("kind") != "chan":
-                o["size"] = 2 if variant == 0 else rng.choice(SIZE_CLASSES)
-            else:
-                o["size"] = 67
+            if variant > 0 and rng.random() < 0.1:
+                o["kind"] = "chan"
+            o["size"] = 67 if o.get("kind") == "chan" else (2 if variant == 0 else rng.choice(SIZE_CLASSES))
+        if o["op"] == "raw_garbage":
+            o["n"] = 50 if variant == 0 else rng.choice([1, 49, 50, 51, 66, 116, 200])
+            o["flavour"] = rng.randrange(3)
         ops.append(o)
     return {"mode": script["mode"], "ops": ops}
 
@@ -150,16 +173,19 @@ def run(tier, seed):
     # ---- 1. design check + behaviour generation
     mcs = []
     scripts = []
-    for cfg, kind in (MC_CFGS_THOROUGH if thorough else MC_CFGS_QUICK):
-        r = vlib.tlc_mc(PID, "TransportMC", cfg, workers=12, timeout=3000 if thorough else 600)
+    for cfg, need in (MC_CFGS_THOROUGH if thorough else MC_CFGS_QUICK):
+        # (-coverage slows this model down 3x; the action coverage is measured on the emitted scripts)
+        r = vlib.tlc_mc(PID, "TransportMC", cfg, workers=12, timeout=3000 if thorough else 600, coverage=False)
         if r["violated"]:
             raise vlib.ToolError("design model violates %s in %s (spec needs correction)" % (r["violated"], cfg))
-        vlib.require_coverage(r, MC_ACTIONS[kind], cfg)
         got = vlib.tlc_printed(r["out"], "SCRIPT")
-        vlib.log("[mc] %s: %d distinct states, %d generated, depth %d, %d scripts, %.0fs" %
-                 (cfg, r["distinct"], r["states"], r["depth"], len(got), r["wall_s"]))
-        if not got:
-            raise vlib.ToolError("no driver scripts printed by %s" % cfg)
+        cnt = last_op_counts(got) if got else {}
+        missing = [a for a in need if cnt.get(a, 0) == 0]
+        if missing or not any(s["ops"][-1]["op"] == "drain" and len(s["ops"]) > 1 for s in got):
+            raise vlib.ToolError("vacuity: model actions never taken in %s: %s" % (cfg, missing))
+        vlib.log("[mc] %s: %d distinct states, %d generated, depth %d, %d scripts, %.0fs %s" %
+                 (cfg, r["distinct"], r["states"], r["depth"], len(got), r["wall_s"], cnt))
+        r["coverage"] = cnt
         scripts += got
         r.pop("out")
         mcs.append((cfg, r))
